@@ -1,64 +1,265 @@
-/- PLACEHOLDER model of urlset.go (to be replaced by the C12 builder's full model with the same
-   entry point `urlSetSanitized`). ParseFloat acceptance is approximated by decimal numbers. -/
+/-
+Model of urlset.go: URLSetSanitized, appendURLToSet, consumeIn / consumeNotIn,
+isOptionalSrcMetadataWellFormed.
+
+* The two byte tables come from `Generated.Tables` (regenerated from the `init` assignments).
+* `isSafeURL` is the model of url.go (`Model.isSafeURL`); the loop is written over an arbitrary
+  `safe : Bytes → Bool` and `pf : Bytes → Bool` (`strconv.ParseFloat(·, 64)` returns a nil error) so that the
+  theorems of `Props/C12` can be stated for opaque functions; `urlSetSanitized` instantiates them.
+* `strconv.ParseFloat` is an external call. `parseFloatOk` mirrors the accepted syntax of
+  `$GOROOT/src/strconv/atof.go` (`special`, `readFloat`, `underscoreOK`) and the range error
+  (value rounds to ±Inf ⇔ |value| ≥ 2^1024 − 2^970, exact arithmetic on `Nat`); it is validated
+  against the real `strconv.ParseFloat` by the harness op `urlset.pf`.
+* Go loops over a shrinking string are written with fuel (`len(str)+1` suffices: every iteration
+  that does not `break` removes at least the comma).
+-/
 import SafeHtml.Model.Url
-namespace SafeHtml.Model
-open SafeHtml SafeHtml.Generated.Tables
+namespace SafeHtml.Model.UrlSet
+open SafeHtml
 
-def consumeIn (mask : List Nat) : Bytes → Bytes × Bytes
-  | [] => ([], [])
-  | c :: t => if mask.contains c then let (a, b) := consumeIn mask t; (c :: a, b) else ([], c :: t)
+/-- `mask[b]` for one of the `[256]bool` tables (given as the list of bytes set to true) -/
+def inTable (mask : List Nat) (b : Nat) : Bool := mask.contains b
 
-def consumeNotIn (mask : List Nat) : Bytes → Bytes × Bytes
-  | [] => ([], [])
-  | c :: t => if mask.contains c then ([], c :: t) else let (a, b) := consumeNotIn mask t; (c :: a, b)
+/-- Go `consumeIn(str, mask)`: longest prefix of bytes in the mask, and the rest -/
+def consumeIn (str : Bytes) (mask : List Nat) : Bytes × Bytes :=
+  (str.takeWhile (inTable mask), str.dropWhile (inTable mask))
 
-def simpleFloatOk (m : Bytes) : Bool :=
-  let m := match m with | 43 :: t => t | 45 :: t => t | _ => m
-  let (ip, rest) := consumeIn [48,49,50,51,52,53,54,55,56,57] m
-  match rest with
-  | [] => !ip.isEmpty
-  | 46 :: fr => (!ip.isEmpty || !fr.isEmpty) && fr.all isDigit
-  | _ => false
+/-- Go `consumeNotIn(str, mask)`: longest prefix of bytes NOT in the mask, and the rest -/
+def consumeNotIn (str : Bytes) (mask : List Nat) : Bytes × Bytes :=
+  (str.takeWhile (fun b => !inTable mask b), str.dropWhile (fun b => !inTable mask b))
 
-def metadataOk (pf : Bytes → Bool) (m : Bytes) : Bool :=
-  match m.getLast? with
-  | none => true
-  | some l =>
-    let lo := if 65 ≤ l && l ≤ 90 then l + 32 else l
-    let pre := if 97 ≤ lo && lo ≤ 122 && l < 128 then m.dropLast else m
-    pf pre
+def asciiWhitespace : List Nat := Generated.Tables.asciiWhitespace
+def srcsetMetachars : List Nat := Generated.Tables.srcsetMetachars
 
+/-- "%2c" -/
+def pct2c : Bytes := [37, 50, 99]
+/-- " , " -/
+def separator : Bytes := [32, 44, 32]
+
+/-- Go `appendURLToSet(url, &buffer)`: the bytes appended to the buffer. The Go code indexes `url[0]`,
+    so it would panic on the empty string; the only call site guards `len(url) != 0`
+    (the model returns `[]` there and the loop never calls it with `[]`). -/
 def appendURLToSet (url : Bytes) : Bytes :=
   match url with
   | [] => []
   | c :: t =>
-    let (pre, body) := if c == 44 then ([37, 50, 99], t) else ([], url)
-    match body.getLast? with
-    | some 44 => pre ++ body.dropLast ++ [37, 50, 99]
-    | _ => pre ++ body
+    let pre := if c = 44 then pct2c else []
+    let body := if c = 44 then t else c :: t          -- url[left:]
+    if body ≠ [] ∧ body.getLast? = some 44 then pre ++ body.dropLast ++ pct2c
+    else pre ++ body
 
-def urlSetLoop (pf : Bytes → Bool) : Nat → Bytes → Bytes → Bytes
-  | 0, _, buf => buf
-  | f+1, str, buf =>
-    if str.isEmpty then buf else
-    let (_, s1) := consumeIn asciiWhitespace str
-    let (url, s2) := consumeNotIn asciiWhitespace s1
-    let (_, s3) := consumeIn asciiWhitespace s2
-    let (md, s4) := consumeNotIn srcsetMetachars s3
-    let (_, s5) := consumeIn asciiWhitespace s4
-    let buf :=
-      if !url.isEmpty && isSafeURL url && metadataOk pf md then
-        (if buf.isEmpty then [] else buf ++ [32, 44, 32]) ++ appendURLToSet url ++
-          (if md.isEmpty then [] else 32 :: md)
-      else buf
-    match s5 with
-    | 44 :: rest => urlSetLoop pf f rest buf
-    | _ => buf
+/-! ### strconv.ParseFloat(s, 64) succeeds -/
 
-def urlSetSanitizedWith (pf : Bytes → Bool) (s : Bytes) : Bytes :=
-  let buf := urlSetLoop pf (s.length + 1) s []
-  if buf.isEmpty then innocuousURL else buf
+/-- Go `c | 32` (strconv's `lower`, and the letter test of isOptionalSrcMetadataWellFormed) written arithmetically:
+    set bit 5. Equal to `c ||| 32` (checked for all bytes in `Props/C12`: `orBit5_eq_lor`). -/
+def orBit5 (c : Nat) : Nat := if c / 32 % 2 = 1 then c else c + 32
 
-def urlSetSanitized (s : Bytes) : Bytes := urlSetSanitizedWith simpleFloatOk s
+def lowerB (c : Nat) : Nat := if 65 ≤ c ∧ c ≤ 90 then c + 32 else c
 
-end SafeHtml.Model
+/-- `commonPrefixLenIgnoreCase(s, prefix)` (prefix lower-case) -/
+def commonPrefixLenIgnoreCase : Bytes → Bytes → Nat
+  | c :: s, p :: ps => if lowerB c = p then commonPrefixLenIgnoreCase s ps + 1 else 0
+  | _, _ => 0
+
+def strInfinity : Bytes := [105, 110, 102, 105, 110, 105, 116, 121]
+def strNan : Bytes := [110, 97, 110]
+
+/-- `special(s)`: `some n` when a prefix of length n is inf / infinity / nan (sign allowed on inf only,
+    exactly as the Go `switch` with its `fallthrough`). -/
+def special (s : Bytes) : Option Nat :=
+  let infLen (t : Bytes) : Option Nat :=
+    let n := commonPrefixLenIgnoreCase t strInfinity
+    let n := if 3 < n ∧ n < 8 then 3 else n
+    if n = 3 ∨ n = 8 then some n else none
+  match s with
+  | [] => none
+  | c :: t =>
+    if c = 43 ∨ c = 45 then (infLen t).map (· + 1)
+    else if c = 105 ∨ c = 73 then infLen (c :: t)
+    else if c = 110 ∨ c = 78 then (if commonPrefixLenIgnoreCase (c :: t) strNan = 3 then some 3 else none)
+    else none
+
+def isHexLetter (c : Nat) : Bool := (65 ≤ c && c ≤ 70) || (97 ≤ c && c ≤ 102)
+def hexLetterVal (c : Nat) : Nat := if c ≤ 70 then c - 55 else c - 87
+
+/-- state of `readFloat`'s mantissa loop -/
+structure Mant where
+  sawdot : Bool := false
+  sawdigits : Bool := false
+  /-- all mantissa digits as an integer in the base (no truncation) -/
+  val : Nat := 0
+  /-- number of digits after the dot -/
+  nfrac : Nat := 0
+  deriving Repr
+
+/-- the mantissa loop of `readFloat`: consumes digits, `_`, one `.`, and hex letters when `hex`. Returns the
+    state and the unconsumed rest. -/
+def readMant (hex : Bool) : Mant → Bytes → Mant × Bytes
+  | st, [] => (st, [])
+  | st, c :: t =>
+    if c = 95 then readMant hex st t
+    else if c = 46 then
+      if st.sawdot then (st, c :: t) else readMant hex { st with sawdot := true } t
+    else if isDigit c then
+      readMant hex { st with sawdigits := true, val := st.val * (if hex then 16 else 10) + (c - 48),
+                             nfrac := if st.sawdot then st.nfrac + 1 else st.nfrac } t
+    else if hex && isHexLetter c then
+      readMant hex { st with sawdigits := true, val := st.val * 16 + hexLetterVal c,
+                             nfrac := if st.sawdot then st.nfrac + 1 else st.nfrac } t
+    else (st, c :: t)
+
+/-- exponent digits: `for ; i < len(s) && (digit || '_')` with Go's cap `if e < 10000 { e = e*10 + d }` -/
+def readExpDigits : Nat → Bytes → Nat × Bytes
+  | e, [] => (e, [])
+  | e, c :: t =>
+    if c = 95 then readExpDigits e t
+    else if isDigit c then readExpDigits (if e < 10000 then e * 10 + (c - 48) else e) t
+    else (e, c :: t)
+
+/-- `underscoreOK(s)` of strconv/atoi.go. `saw`: 0 = '^', 1 = '0', 2 = '_', 3 = '!'. -/
+def underscoreLoop (hex : Bool) : Nat → Bytes → Bool
+  | saw, [] => saw != 2
+  | saw, c :: t =>
+    if isDigit c || (hex && isHexLetter c) then underscoreLoop hex 1 t
+    else if c = 95 then (if saw != 1 then false else underscoreLoop hex 2 t)
+    else if saw = 2 then false
+    else underscoreLoop hex 3 t
+
+def underscoreOK (s : Bytes) : Bool :=
+  let s := match s with
+    | c :: t => if c = 45 ∨ c = 43 then t else c :: t
+    | [] => []
+  match s with
+  | 48 :: x :: t =>
+    let lx := orBit5 x
+    if lx = 98 ∨ lx = 111 ∨ lx = 120 then underscoreLoop (lx = 120) 1 t
+    else underscoreLoop false 0 (48 :: x :: t)
+  | _ => underscoreLoop false 0 s
+
+/-- 2^1024 − 2^970: the least magnitude that rounds (to nearest, ties to even) to +Inf in float64 -/
+def overflowThreshold : Nat := 2 ^ 1024 - 2 ^ 970
+
+/-- does `val · base^(e) · unit^(−nfrac)` (base 10: unit 10; hex: base 2, unit 16) reach the overflow threshold?
+    `e` is the (capped) signed exponent. Exact integer arithmetic; the `ndigits` shortcut only avoids huge powers
+    and agrees with the exact comparison. -/
+def overflows (hex : Bool) (val nfrac : Nat) (eNeg : Bool) (e : Nat) : Bool :=
+  if val = 0 then false else
+  -- x = exponent of the base applied to val:  base 10: (±e) − nfrac ;  hex: (±e) − 4·nfrac  (base 2)
+  let b : Nat := if hex then 2 else 10
+  let sub : Nat := if hex then 4 * nfrac else nfrac
+  -- pos − neg is the signed exponent
+  let pos : Nat := if eNeg then 0 else e
+  let neg : Nat := if eNeg then e + sub else sub
+  if pos ≥ neg then
+    let x := pos - neg
+    if x > 1100 then true else decide (val * b ^ x ≥ overflowThreshold)
+  else
+    let x := neg - pos
+    -- val / b^x ≥ T  ⇔  val ≥ T · b^x ; impossible when b^x alone exceeds val
+    if x > Nat.log2 val + 1 then false else decide (val ≥ overflowThreshold * b ^ x)
+
+/-- `readFloat`: the optional sign -/
+def stripSign (s : Bytes) : Bytes :=
+  match s with
+  | c :: t => if c = 43 ∨ c = 45 then t else c :: t
+  | [] => []
+
+/-- `readFloat`: the base prefix, `i+2 < len(s) && s[i] == '0' && lower(s[i+1]) == 'x'` -/
+def stripHex (body : Bytes) : Bool × Bytes :=
+  match body with
+  | 48 :: x :: y :: t => if orBit5 x = 120 then (true, y :: t) else (false, body)
+  | _ => (false, body)
+
+/-- `readFloat`: what follows the mantissa. `some (eNeg, e)` when `rest` is empty (decimal only: "hexadecimal mantissa
+    requires a 'p' exponent") or is a complete exponent `[eEpP][+-]?[0-9][0-9_]*`; `none` when readFloat fails or
+    does not consume everything (ParseFloat: `n != len(s)`). -/
+def readExponent (hex : Bool) (rest : Bytes) : Option (Bool × Nat) :=
+  match rest with
+  | [] => if hex then none else some (false, 0)
+  | c :: t =>
+    if orBit5 c = (if hex then 112 else 101) then
+      match t with
+      | [] => none
+      | d :: t' =>
+        let t2 := if d = 43 ∨ d = 45 then t' else d :: t'
+        match t2 with
+        | [] => none
+        | d2 :: _ =>
+          if !isDigit d2 then none else
+          let r := readExpDigits 0 t2
+          if r.2.isEmpty then some (decide (d = 45), r.1) else none
+    else none
+
+/-- `readFloat` succeeds and consumes the whole string, and the value does not overflow float64. -/
+def readFloatOk (s : Bytes) : Bool :=
+  if s.isEmpty then false else
+  let hd := stripHex (stripSign s)
+  let mr := readMant hd.1 {} hd.2
+  if !mr.1.sawdigits then false else
+  match readExponent hd.1 mr.2 with
+  | none => false
+  | some (eNeg, e) =>
+    -- `underscores && !underscoreOK(s[:i])`, then the range error of atof64 / atofHex
+    (!s.contains 95 || underscoreOK s) && !overflows hd.1 mr.1.val mr.1.nfrac eNeg e
+
+/-- `[0-9A-Za-z+-._]` -/
+def floatByte (c : Nat) : Bool :=
+  isDigit c || isAlpha c || c == 43 || c == 45 || c == 46 || c == 95
+
+/-- `strconv.ParseFloat(s, 64)` returns a nil error -/
+def parseFloatOk (s : Bytes) : Bool :=
+  match special s with
+  | some n => n = s.length
+  | none => readFloatOk s
+
+/-- Go `isOptionalSrcMetadataWellFormed`, over an arbitrary ParseFloat acceptor -/
+def metadataWellFormedWith (pf : Bytes → Bool) (metadata : Bytes) : Bool :=
+  match metadata.getLast? with
+  | none => true
+  | some last =>
+    let l := orBit5 last
+    let metadataPrefix := if 97 ≤ l ∧ l ≤ 122 then metadata.dropLast else metadata
+    pf metadataPrefix
+
+def isOptionalSrcMetadataWellFormed (metadata : Bytes) : Bool :=
+  metadataWellFormedWith parseFloatOk metadata
+
+/-- one iteration's "append sanitized content onto buffer" -/
+def appendCandidate (safe pf : Bytes → Bool) (buffer url metadata : Bytes) : Bytes :=
+  if url ≠ [] ∧ safe url = true ∧ metadataWellFormedWith pf metadata = true then
+    let buffer := if buffer ≠ [] then buffer ++ separator else buffer
+    let buffer := buffer ++ appendURLToSet url
+    if metadata ≠ [] then buffer ++ [32] ++ metadata else buffer
+  else buffer
+
+/-- "Consume one image candidate": the five `consumeIn` / `consumeNotIn` calls at the top of the loop body.
+    Returns url, metadata and the remaining string. -/
+def consumeCandidate (str : Bytes) : Bytes × Bytes × Bytes :=
+  let str := (consumeIn str asciiWhitespace).2
+  let (url, str) := consumeNotIn str asciiWhitespace
+  let str := (consumeIn str asciiWhitespace).2
+  let (metadata, str) := consumeNotIn str srcsetMetachars
+  let str := (consumeIn str asciiWhitespace).2
+  (url, metadata, str)
+
+/-- the `for len(str) != 0` loop of URLSetSanitized; returns the buffer -/
+def sanitizeLoop (safe pf : Bytes → Bool) : Nat → Bytes → Bytes → Bytes
+  | 0, _, buffer => buffer
+  | fuel + 1, str, buffer =>
+    if str = [] then buffer else
+    let (url, metadata, str) := consumeCandidate str
+    let buffer := appendCandidate safe pf buffer url metadata
+    -- "Consume any trailing comma"
+    match str with
+    | [] => buffer                                                    -- len(str) == 0: break
+    | c :: rest => if c = 44 then sanitizeLoop safe pf fuel rest buffer else buffer   -- str[0] != ',': break
+
+def urlSetSanitizedWith (safe pf : Bytes → Bool) (str : Bytes) : Bytes :=
+  let buffer := sanitizeLoop safe pf (str.length + 1) str []
+  if buffer = [] then Generated.Tables.innocuousURL else buffer
+
+/-- Go `URLSetSanitized(str).String()` -/
+def urlSetSanitized (str : Bytes) : Bytes :=
+  urlSetSanitizedWith Model.isSafeURL parseFloatOk str
+
+end SafeHtml.Model.UrlSet
